@@ -539,7 +539,7 @@ func init() {
 		ID:  "C07",
 		Run: runC07,
 		Rule: "case = one of 7 pipeline shapes: a task one of whose branches fails on the first point while a timer-driven stats branch and an influxDBOut branch go on (termination only), or 6 shapes ending in real output nodes (influxDBOut with seeded buffer/flushInterval, alert->topic->bufHandler->recording handler on a named topic and, in half of the cases, also on the node's anonymous topic (closed when the node ends), kapacitorLoopback into a second task, log sink, 3-way fork, self-join) " +
-			"a second failing-node shape (combine refusing more than max combinations, in front of a union / a join with a healthy sibling / a window with an output below; termination only); (round 3) two more shapes: a union of two from() nodes fed by different writers (its parents are at different timestamps when the stop arrives), and a batch task (every 500ms/1s, aligned or cron, query latency 0-2.6s; termination only) stopped after 0-4s; in half of all cases a goroutine sits in ExecutingTask.Wait() for the life of the task as the task store's does; " +
+			"an httpPost shape (http.DefaultClient on a recording transport that honours the request context); in half of the Close cases the alert service is closed right after the task master, with whatever its handlers still have queued; a second failing-node shape (combine refusing more than max combinations, in front of a union / a join with a healthy sibling / a window with an output below; termination only); (round 3) two more shapes: a union of two from() nodes fed by different writers (its parents are at different timestamps when the stop arrives), and a batch task (every 500ms/1s, aligned or cron, query latency 0-2.6s; termination only) stopped after 0-4s; in half of all cases a goroutine sits in ExecutingTask.Wait() for the life of the task as the task store's does; " +
 			"x 1-3 concurrent HTTP writers (1-30/120 points each) x stop action (StopTask/DeleteTask/TaskMaster.Close) issued after a seeded number of acknowledged writes x slow outputs x one seeded schedule/knob set; " +
 			"non-trivial = at least one point was acknowledged before the stop request; distinct = distinct (scenario, interleaving signature) pairs",
 		Real:        []string{"services/httpd Handler", "TaskMaster (WritePoints, forkPoint, StopTask/DeleteTask/Close/Drain)", "ExecutingTask.stop, node.start/stop/Wait", "StreamNode, FromNode, EvalNode, WhereNode, JoinNode, LogNode, InfluxDBOutNode + writeBuffer, AlertNode, KapacitorLoopbackNode", "edge package", "services/alert + alert.Topics + bufHandler"},
